@@ -86,6 +86,7 @@ func signCmd(cmd *cobra.Command, args []string) error {
 		return shared.Fail(err)
 	}
 	opts.Path = argFile
+	opts.Audit.Attributes["client.filename"] = argFile
 	infile, err := shared.OpenForPatching(argFile, argOutput)
 	if err != nil {
 		return shared.Fail(err)
